@@ -97,6 +97,10 @@ interpolated into rich markup). The model is a model of the repaired tree.
   scanner standing anywhere in the text; `/` vs `//`, `<` vs `<=` decided at the next character) and `Tokenizer.tokenize` of it is the
   evaluation of the reference precedence parse — scanner, tree builder (`C04_build`) and evaluator composed end to end; `lex_flatB`
   (Lemmas/LexFlatB.lean): blanks of any kind and number before, between and after those tokens change nothing (spacing).
+* **Tighter tie for the scanner** (session 3): the correspondence now also compares the scanner's TOKEN LIST
+  (`Tokenizer.__convert_string`: classes, operator texts, leaf values, inner texts and `!` flags of groups) with the model's `lex` —
+  the very function `lex_digits`, `lex_name`, `lex_flat`, `lex_flatB` are about — on structured expressions in random layouts and on
+  token soup with names that are prefixes of one another (driver op `lex`, C04 family `tokens`), not only the final values.
 * `Spec.Prog` (the scoped big-step semantics) exists as the Python reference interpreter `harness/refinterp.py` (the
   construction-side oracle), not as a Lean definition; the refinement of the WHOLE interpreter to it is therefore not proved (the
   environment-level refinement `C08_refines_scoped` and the algebraic laws are). The third sentence of C02 (no DucklingScript-only keyword without a warning) is decided by oracle + correspondence only.
